@@ -316,3 +316,198 @@ Definition spec_TransactionMergeInstall : tlayout :=
           "storage_ph" ::: FMaybe (ty "TrStoragePhase"); "credit_ph" ::: FMaybe (ty "TrCreditPhase");
           "compute_ph" ::: ty "TrComputePhase"; "action" ::: FMaybe (^"TrActionPhase");
           "aborted" ::: FBool; "destroyed" ::: FBool ] ].
+
+(* ---- accounts ---- *)
+
+(* account_uninit$00 = AccountState;
+   account_active$1 _:StateInit = AccountState;
+   account_frozen$01 state_hash:bits256 = AccountState; *)
+Definition spec_AccountState : tlayout :=
+  mkType TagBitwise
+    [ mkCtor (bin "00") (tagged_obj "AccountState" "account_uninit") [];
+      mkCtor (bin "1") (tagged_obj "AccountState" "account_active") [ "state_init" ::: ty "StateInit" ];
+      mkCtor (bin "01") (tagged_obj "AccountState" "account_frozen") [ "state_hash" ::: FBytesHex 32 ] ].
+
+(* account_storage$_ last_trans_lt:uint64 balance:CurrencyCollection state:AccountState
+     = AccountStorage; *)
+Definition spec_AccountStorage : tlayout :=
+  record "AccountStorage"
+    [ "last_trans_lt" ::: FUint 64; "balance" ::: ty "CurrencyCollection"; "state" ::: ty "AccountState" ].
+
+(* account_none$0 = Account;
+   account$1 addr:MsgAddressInt storage_stat:StorageInfo storage:AccountStorage = Account; *)
+Definition spec_Account : tlayout :=
+  mkType TagBitwise
+    [ mkCtor (bin "0") RNone [];
+      mkCtor (bin "1") (obj "Account")
+        [ "addr" ::: FAddrInt; "storage_stat" ::: ty "StorageInfo"; "storage" ::: ty "AccountStorage" ] ].
+
+(* depth_balance$_ split_depth:(#<= 30) balance:CurrencyCollection = DepthBalanceInfo; *)
+Definition spec_DepthBalanceInfo : tlayout :=
+  record "DepthBalanceInfo" [ "split_depth" ::: FUintLe 30; "balance" ::: ty "CurrencyCollection" ].
+
+(* import_fees$_ fees_collected:Grams value_imported:CurrencyCollection = ImportFees; *)
+Definition spec_ImportFees : tlayout :=
+  record "ImportFees" [ "fees_collected" ::: FCoins; "value_imported" ::: ty "CurrencyCollection" ].
+
+(* libref_hash$0 lib_hash:bits256 = LibRef;
+   libref_ref$1 library:^Cell = LibRef; *)
+Definition spec_LibRef : tlayout :=
+  mkType TagBitwise
+    [ mkCtor (bin "0") (RObj "LibRef" [("library", CNone); ("type_", CStr "libref_hash")])
+        [ "lib_hash" ::: FBytes 32 ];
+      mkCtor (bin "1") (RObj "LibRef" [("lib_hash", CNone); ("type_", CStr "libref_ref")])
+        [ "library" ::: FCell ] ].
+
+(* msg_envelope#4 cur_addr:IntermediateAddress next_addr:IntermediateAddress fwd_fee_remaining:Grams
+     msg:^(Message Any) = MsgEnvelope;
+   (docstring of class MsgEnvelope; not in the shipped block.tlb)
+   msg_envelope_v2#5 cur_addr:IntermediateAddress next_addr:IntermediateAddress fwd_fee_remaining:Grams
+     msg:^(Message Any) emitted_lt:(Maybe uint64) metadata:(Maybe MsgMetadata) = MsgEnvelope; *)
+Definition spec_MsgEnvelope : tlayout :=
+  mkType (TagChunk (CkUint 4))
+    [ mkCtor (hex "4")
+        (RObj "MsgEnvelope" [("emitted_lt", CNone); ("metadata", CNone); ("type_", CStr "msg_envelope")])
+        [ "cur_addr" ::: ty "IntermediateAddress"; "next_addr" ::: ty "IntermediateAddress";
+          "fwd_fee_remaining" ::: FCoins; "msg" ::: ^"MessageAny" ];
+      mkCtor (hex "5") (tagged_obj "MsgEnvelope" "msg_envelope_v2")
+        [ "cur_addr" ::: ty "IntermediateAddress"; "next_addr" ::: ty "IntermediateAddress";
+          "fwd_fee_remaining" ::: FCoins; "msg" ::: ^"MessageAny";
+          "emitted_lt" ::: FMaybe (FUint 64); "metadata" ::: FMaybe (ty "MsgMetadata") ] ].
+
+(* ---- masterchain state ---- *)
+
+(* validator_info$_ validator_list_hash_short:uint32 catchain_seqno:uint32 nx_cc_updated:Bool
+     = ValidatorInfo; *)
+Definition spec_ValidatorInfo : tlayout :=
+  record "ValidatorInfo"
+    [ "validator_list_hash_short" ::: FUint 32; "catchain_seqno" ::: FUint 32; "nx_cc_updated" ::: FBool ].
+
+(* _ key:Bool max_end_lt:uint64 = KeyMaxLt; *)
+Definition spec_KeyMaxLt : tlayout :=
+  record "KeyMaxLt" [ "key" ::: FBool; "max_end_lt" ::: FUint 64 ].
+
+(* _ key:Bool blk_ref:ExtBlkRef = KeyExtBlkRef; *)
+Definition spec_KeyExtBlkRef : tlayout :=
+  record "KeyExtBlkRef" [ "key" ::: FBool; "blk_ref" ::: ty "ExtBlkRef" ].
+
+(* counters#_ last_updated:uint32 total:uint64 cnt2048:uint64 cnt65536:uint64 = Counters; *)
+Definition spec_Counters : tlayout :=
+  record "Counters"
+    [ "last_updated" ::: FUint 32; "total" ::: FUint 64; "cnt2048" ::: FUint 64; "cnt65536" ::: FUint 64 ].
+
+(* creator_info#4 mc_blocks:Counters shard_blocks:Counters = CreatorStats; *)
+Definition spec_CreatorStats : tlayout :=
+  mkType (TagChunk (CkUint 4))
+    [ mkCtor (hex "4") (obj "CreatorStats")
+        [ "mc_blocks" ::: ty "Counters"; "shard_blocks" ::: ty "Counters" ] ].
+
+(* ---- configuration parameters ---- *)
+
+(* _ mint_new_price:Grams mint_add_price:Grams = ConfigParam 6; *)
+Definition spec_ConfigParam6 : tlayout :=
+  record "ConfigParam6" [ "mint_new_price" ::: FCoins; "mint_add_price" ::: FCoins ].
+
+(* _ to_mint:ExtraCurrencyCollection = ConfigParam 7; *)
+Definition spec_ConfigParam7 : tlayout :=
+  record "ConfigParam7" [ "to_mint" ::: ty "ExtraCurrencyCollection" ].
+
+(* cfg_vote_cfg#36 min_tot_rounds:uint8 max_tot_rounds:uint8 min_wins:uint8 max_losses:uint8
+     min_store_sec:uint32 max_store_sec:uint32 bit_price:uint32 cell_price:uint32
+     = ConfigProposalSetup; *)
+Definition spec_ConfigProposalSetup : tlayout :=
+  mkType (TagChunk (CkBytes 1))
+    [ mkCtor (hex "36") (obj "ConfigProposalSetup")
+        [ "min_tot_rounds" ::: FUint 8; "max_tot_rounds" ::: FUint 8; "min_wins" ::: FUint 8;
+          "max_losses" ::: FUint 8; "min_store_sec" ::: FUint 32; "max_store_sec" ::: FUint 32;
+          "bit_price" ::: FUint 32; "cell_price" ::: FUint 32 ] ].
+
+(* cfg_vote_setup#91 normal_params:^ConfigProposalSetup critical_params:^ConfigProposalSetup
+     = ConfigVotingSetup; *)
+Definition spec_ConfigVotingSetup : tlayout :=
+  mkType (TagChunk (CkBytes 1))
+    [ mkCtor (hex "91") (obj "ConfigVotingSetup")
+        [ "normal_params" ::: ^"ConfigProposalSetup"; "critical_params" ::: ^"ConfigProposalSetup" ] ].
+
+(* wfmt_basic#1 vm_version:int32 vm_mode:uint64 = WorkchainFormat 1; *)
+Definition spec_WorkchainFormat_1 : tlayout :=
+  mkType (TagChunk (CkUint 4))
+    [ mkCtor (hex "1")
+        (RObj "WorkchainFormat"
+           [("addr_len_step", CNone); ("max_addr_len", CNone); ("min_addr_len", CNone);
+            ("type_", CStr "wfmt_basic"); ("workchain_type_id", CNone)])
+        [ "vm_version" ::: FInt 32; "vm_mode" ::: FUint 64 ] ].
+
+(* wc_split_merge_timings#0 split_merge_delay:uint32 split_merge_interval:uint32
+     min_split_merge_interval:uint32 max_split_merge_delay:uint32 = WcSplitMergeTimings; *)
+Definition spec_WcSplitMergeTimings : tlayout :=
+  mkType (TagChunk (CkUint 4))
+    [ mkCtor (hex "0") (obj "WcSplitMergeTimings")
+        [ "split_merge_delay" ::: FUint 32; "split_merge_interval" ::: FUint 32;
+          "min_split_merge_interval" ::: FUint 32; "max_split_merge_delay" ::: FUint 32 ] ].
+
+(* complaint_prices#1a deposit:Grams bit_price:Grams cell_price:Grams = ComplaintPricing; *)
+Definition spec_ComplaintPricing : tlayout :=
+  mkType (TagChunk (CkBytes 1))
+    [ mkCtor (hex "1a") (obj "ComplaintPricing")
+        [ "deposit" ::: FCoins; "bit_price" ::: FCoins; "cell_price" ::: FCoins ] ].
+
+(* block_grams_created#6b masterchain_block_fee:Grams basechain_block_fee:Grams = BlockCreateFees; *)
+Definition spec_BlockCreateFees : tlayout :=
+  mkType (TagChunk (CkBytes 1))
+    [ mkCtor (hex "6b") (obj "BlockCreateFees")
+        [ "masterchain_block_fee" ::: FCoins; "basechain_block_fee" ::: FCoins ] ].
+
+(* _ validators_elected_for:uint32 elections_start_before:uint32 elections_end_before:uint32
+     stake_held_for:uint32 = ConfigParam 15; *)
+Definition spec_ConfigParam15 : tlayout :=
+  record "ConfigParam15"
+    [ "validators_elected_for" ::: FUint 32; "elections_start_before" ::: FUint 32;
+      "elections_end_before" ::: FUint 32; "stake_held_for" ::: FUint 32 ].
+
+(* _ min_stake:Grams max_stake:Grams min_total_stake:Grams max_stake_factor:uint32 = ConfigParam 17; *)
+Definition spec_ConfigParam17 : tlayout :=
+  record "ConfigParam17"
+    [ "min_stake" ::: FCoins; "max_stake" ::: FCoins; "min_total_stake" ::: FCoins;
+      "max_stake_factor" ::: FUint 32 ].
+
+(* _#cc utime_since:uint32 bit_price_ps:uint64 cell_price_ps:uint64 mc_bit_price_ps:uint64
+     mc_cell_price_ps:uint64 = StoragePrices; *)
+Definition spec_StoragePrices : tlayout :=
+  mkType (TagChunk (CkBytes 1))
+    [ mkCtor (hex "cc") (obj "StoragePrices")
+        [ "utime_since" ::: FUint 32; "bit_price_ps" ::: FUint 64; "cell_price_ps" ::: FUint 64;
+          "mc_bit_price_ps" ::: FUint 64; "mc_cell_price_ps" ::: FUint 64 ] ].
+
+(* block_limits#5d bytes:ParamLimits gas:ParamLimits lt_delta:ParamLimits = BlockLimits; *)
+Definition spec_BlockLimits : tlayout :=
+  mkType (TagChunk (CkBytes 1))
+    [ mkCtor (hex "5d") (obj "BlockLimits")
+        [ "bytes" ::: ty "ParamLimits"; "gas" ::: ty "ParamLimits"; "lt_delta" ::: ty "ParamLimits" ] ].
+
+(* msg_forward_prices#ea lump_price:uint64 bit_price:uint64 cell_price:uint64 ihr_price_factor:uint32
+     first_frac:uint16 next_frac:uint16 = MsgForwardPrices; *)
+Definition spec_MsgForwardPrices : tlayout :=
+  mkType (TagChunk (CkBytes 1))
+    [ mkCtor (hex "ea") (obj "MsgForwardPrices")
+        [ "lump_price" ::: FUint 64; "bit_price" ::: FUint 64; "cell_price" ::: FUint 64;
+          "ihr_price_factor" ::: FUint 32; "first_frac" ::: FUint 16; "next_frac" ::: FUint 16 ] ].
+
+(* _ prev_validators:ValidatorSet = ConfigParam 32;      _ prev_temp_validators:ValidatorSet = ConfigParam 33;
+   _ cur_validators:ValidatorSet = ConfigParam 34;       _ cur_temp_validators:ValidatorSet = ConfigParam 35;
+   _ next_validators:ValidatorSet = ConfigParam 36;      _ next_temp_validators:ValidatorSet = ConfigParam 37; *)
+Definition spec_ConfigParam32 : tlayout := record "ConfigParam32" [ "prev_validators" ::: ty "ValidatorSet" ].
+Definition spec_ConfigParam33 : tlayout := record "ConfigParam33" [ "prev_temp_validators" ::: ty "ValidatorSet" ].
+Definition spec_ConfigParam34 : tlayout := record "ConfigParam34" [ "cur_validators" ::: ty "ValidatorSet" ].
+Definition spec_ConfigParam35 : tlayout := record "ConfigParam35" [ "cur_temp_validators" ::: ty "ValidatorSet" ].
+Definition spec_ConfigParam36 : tlayout := record "ConfigParam36" [ "next_validators" ::: ty "ValidatorSet" ].
+Definition spec_ConfigParam37 : tlayout := record "ConfigParam37" [ "next_temp_validators" ::: ty "ValidatorSet" ].
+
+(* jetton_bridge_prices#_ bridge_burn_fee:Coins bridge_mint_fee:Coins wallet_min_tons_for_storage:Coins
+     wallet_gas_consumption:Coins minter_min_tons_for_storage:Coins discover_gas_consumption:Coins
+     = JettonBridgePrices; *)
+Definition spec_JettonBridgePrices : tlayout :=
+  record "JettonBridgePrices"
+    [ "bridge_burn_fee" ::: FCoins; "bridge_mint_fee" ::: FCoins; "wallet_min_tons_for_storage" ::: FCoins;
+      "wallet_gas_consumption" ::: FCoins; "minter_min_tons_for_storage" ::: FCoins;
+      "discover_gas_consumption" ::: FCoins ].
